@@ -151,6 +151,7 @@ type Chain struct {
 	lfbSummary           *block.BlockSummary
 
 	LatestDeterministicBlock *block.Block `json:"latest_deterministic_block,omitempty"`
+	ldbMutex                 sync.RWMutex // guards LatestDeterministicBlock
 
 	stateDB    util.NodeDB
 	stateMutex *sync.RWMutex
@@ -1588,7 +1589,7 @@ func (c *Chain) addBlock(b *block.Block) *block.Block {
 			b.SetPreviousBlock(pb)
 		}
 	}
-	for pb := b.PrevBlock; pb != nil && pb != c.LatestDeterministicBlock; pb = pb.PrevBlock {
+	for pb := b.PrevBlock; pb != nil && pb != c.GetLatestDeterministicBlock(); pb = pb.PrevBlock {
 		pb.AddUniqueBlockExtension(b)
 		if c.IsFinalizedDeterministically(pb) {
 			c.SetLatestDeterministicBlock(pb)
@@ -1661,8 +1662,9 @@ func (c *Chain) DeleteBlocksBelowRound(round int64) {
 	ts := common.Now() - 60
 	blocks := make([]*block.Block, 0, len(c.blocks))
 	lfb := c.GetLatestFinalizedBlock()
+	ldbRound := c.GetLatestDeterministicBlock().Round
 	for _, b := range c.blocks {
-		if b.Round < round && b.CreationDate < ts && b.Round < c.LatestDeterministicBlock.Round {
+		if b.Round < round && b.CreationDate < ts && b.Round < ldbRound {
 			logging.Logger.Debug("found block to delete", zap.Int64("round", round),
 				zap.Int64("block_round", b.Round),
 				zap.Int64("current_round", c.GetCurrentRound()),
@@ -2530,7 +2532,16 @@ func ResetStatusMonitor(round int64) {
 	UpdateNodes <- round
 }
 
+// GetLatestDeterministicBlock - get the latest block finalized deterministically.
+func (c *Chain) GetLatestDeterministicBlock() *block.Block {
+	c.ldbMutex.RLock()
+	defer c.ldbMutex.RUnlock()
+	return c.LatestDeterministicBlock
+}
+
 func (c *Chain) SetLatestDeterministicBlock(b *block.Block) {
+	c.ldbMutex.Lock()
+	defer c.ldbMutex.Unlock()
 	lfb := c.LatestDeterministicBlock
 	if lfb == nil || b.Round >= lfb.Round {
 		c.LatestDeterministicBlock = b
